@@ -119,6 +119,38 @@ func genCase(t *rapid.T) Case {
 	}
 	c.Main = genOp(t)
 	c.Dirty = genDirty(t)
+	// Near-duplicates of the main call in the history: the same operation on the same operands
+	// with one context field (or one operand detail) changed. Anything remembered between
+	// calls under an incomplete key - a memo, a cache, a reused scratch value - shows only then.
+	if gen.Pick(t, 2, "variants") == 0 {
+		k := 1 + gen.Pick(t, 3, "nvar")
+		for i := 0; i < k; i++ {
+			v := c.Main
+			switch gen.Pick(t, 8, "vfield") {
+			case 0:
+				v.Ctx.Emax = int32(rapid.IntRange(0, 400).Draw(t, "vemax"))
+			case 1:
+				v.Ctx.Emin = -int32(rapid.IntRange(0, 400).Draw(t, "vemin"))
+			case 2:
+				v.Ctx.Emax, v.Ctx.Emin = gen.Limit, -gen.Limit
+			case 3:
+				v.Ctx.P = uint32(1 + gen.Pick(t, 40, "vp"))
+			case 4:
+				v.Ctx.Rounding = []string{"down", "half_up", "half_even", "ceiling", "floor", "half_down", "up", "05up"}[gen.Pick(t, 8, "vmode")]
+			case 5:
+				v.Ctx.Traps = rapid.Uint32Range(0, 1<<12-1).Draw(t, "vtraps")
+			case 6:
+				v.X.Neg = !v.X.Neg
+			default:
+				v.X.Exp += int32(rapid.IntRange(-3, 3).Draw(t, "vxe"))
+				if v.X.Exp > gen.Limit-int32(len(v.X.Coeff)) || v.X.Exp < -gen.Limit {
+					v.X.Exp = c.Main.X.Exp
+				}
+			}
+			pos := rapid.IntRange(0, len(c.History)).Draw(t, "vpos")
+			c.History = append(c.History[:pos], append([]arith.Case{v}, c.History[pos:]...)...)
+		}
+	}
 	return c
 }
 
@@ -203,6 +235,10 @@ func check(c Case, st *core.Stats) error {
 	// accumulator: destination reused across the history (so its state is history-produced)
 	acc := new(apd.Decimal)
 	var failed error
+	// the main call once before the history: what it returns must not change afterwards
+	var before arith.Out
+	var beforeX string
+	core.Guard(st, func() { before, beforeX = run(c.Main, c.Main.Ctx.Apd(), new(apd.Decimal), c.Main.X.Apd(), c.Main.Y.Apd()) })
 	core.Guard(st, func() {
 		for _, h := range c.History {
 			run(h, h.Ctx.Apd(), acc, h.X.Apd(), h.Y.Apd())
@@ -247,6 +283,9 @@ func check(c Case, st *core.Stats) error {
 			return true
 		}
 		return core.SameFields(a.D, b.D) && ea == eb
+	}
+	if !eq(before, want, beforeX, wantX) {
+		return fmt.Errorf("%v: before a history of %d operations: %s; after it: %s", m, len(c.History), showOut(before, beforeX), showOut(want, wantX))
 	}
 	if !eq(want, gotDirty, wantX, dirtyX) {
 		return fmt.Errorf("%v: into a fresh destination: %s; into destination %v: %s", m, showOut(want, wantX), c.Dirty, showOut(gotDirty, dirtyX))
